@@ -63,6 +63,8 @@ func checkC16(c *Check, a *Anchors) {
 	// a load error that is swallowed leaves a vertex without a parsed Taskfile in the graph (nil dereference later)
 	c08CycleVersionMissing(c, a)
 	lookupResultChecked(c, a)
+	reflectFieldsSettable(c, a)
+	errorsNotSwallowed(c, a)
 }
 
 func c16BCE(c *Check, a *Anchors) {
